@@ -20,7 +20,7 @@ RULE = (
     "(db float conversion into the model's default unit, or unchanged; amounts 2.5, 3, 0 and 0.0, length / time / temperature incl. degC and degF into K) and the exact sequence of on_current / "
     "on_unit_changed notifications (re-selecting the current system may or may not notify; after removing the current "
     "system any registered system or none may be selected); a rejected call leaves the model-visible state and the "
-    "notification log untouched. Mappings may name a unit of another quantity type (they are taken as given): converting into such a unit, or from a unit that is not a unit of the category, raises. Non-trivial = history with a removal or a default-unit change after a change of the "
+    "notification log untouched. Mappings may name a unit of another quantity type (they are taken as given): converting into such a unit, or from a unit that is not a unit of the category, raises. One manager used while the shipped and a project database are current in turn (either order) converts with the database that is current at each call. Non-trivial = history with a removal or a default-unit change after a change of the "
     "current system; key = the history."
 )
 ASSUMPTIONS = [
@@ -282,10 +282,34 @@ def gen_op():
     )
 
 
+def check_manager_follows_the_current_database(ctx, db):
+    """One manager used while two different databases are current in turn (either order): every ConvertToCurrent
+    re-expresses the amount with the database that is current at that call."""
+    from barril.units.unit_system_manager import UnitSystemManager
+
+    other = env.skewed_db()
+    for order in ("shipped first", "project first"):
+        mgr = UnitSystemManager()
+        mgr.AddUnitSystem("a", "A", {"length": "cm", "time": "min", "temperature": "degC"})
+        mgr.SetCurrent(mgr.GetUnitSystemById("a"))
+        seq = [db, other, db] if order == "shipped first" else [other, db, other]
+        for d in seq:
+            with env.pushed(d):
+                for cat, unit, x in (("length", "m", 2.0), ("length", "ft", 3.0), ("time", "h", 1.5), ("temperature", "K", 300.0)):
+                    ctx.ev()
+                    want = (d.Convert(cat, unit, {"length": "cm", "time": "min", "temperature": "degC"}[cat], x), {"length": "cm", "time": "min", "temperature": "degC"}[cat])
+                    got = tuple(mgr.ConvertToCurrent(cat, unit, x))
+                    if got != want:
+                        ctx.record("convert_to_current_uses_another_database_than_the_current_one:%s" % order.replace(" ", "_"), {"kind": "two_databases", "order": order, "cat": cat, "unit": unit, "x": x}, "%s: ConvertToCurrent(%r,%r,%r) = %r while the current database converts it to %r" % (order, cat, unit, x, got, want))
+    ctx.cls("manager_under_two_databases")
+
+
 def run_shard(spec, ctx):
     tier = spec["tier"]
     db = env.new_db("posc")
     with env.pushed(db):
+        if spec.get("i", 0) == 0 and spec["part"] == "exhaustive":
+            check_manager_follows_the_current_database(ctx, db)
         if spec["part"] == "exhaustive":
             depth = 4 if tier == "quick" else 5
             nops = len(OPS)
@@ -337,6 +361,9 @@ def run_shard(spec, ctx):
 def replay(case, ctx):
     db = env.new_db("posc")
     with env.pushed(db):
+        if case.get("kind") == "two_databases":
+            check_manager_follows_the_current_database(ctx, db)
+            return ["%s: %s" % (k, v["msg"]) for k, v in ctx.violations.items()]
         seq = [list(o) for o in case["ops"]]
         run_history(ctx, seq, ctx.record, db)
     return ["%s: %s" % (k, v["msg"]) for k, v in ctx.violations.items()]
